@@ -8,6 +8,7 @@ import (
 	"net/http"
 	"os"
 	"strings"
+	"sync/atomic"
 	"time"
 
 	connect "github.com/bufbuild/connect-go"
@@ -390,6 +391,7 @@ func c07(run *ev.Run) int {
 			run.Violation(key+"/no-response", "ServeHTTP returned without writing a response", detail)
 		}
 	})
+	c07LateVerdict(run)
 	return run.Finish("requests", "responses.decoded", "received.prefix.checked", "rejections.checked")
 }
 
@@ -831,6 +833,72 @@ func c07CustomCodecs(run *ev.Run) {
 						}
 					}
 				}
+			}
+		}
+	}
+}
+
+// c07LateVerdict: a registered decompressor may report a corrupt stream from
+// Close instead of Read (a format whose integrity check trails the data).
+// Such a payload did not decode successfully: user code must not receive it
+// and the peer gets an error, in every protocol and for unary and streaming
+// requests alike; an intact payload of the same algorithm is delivered.
+func c07LateVerdict(run *ev.Run) {
+	stats := &svc.AlgoStats{CloseVerdict: 1}
+	zd, zc := svc.Algo("zz-len", stats)
+	for _, protocol := range svc.Protocols {
+		for _, kind := range []svc.Kind{svc.Unary, svc.ClientStream, svc.ServerStream, svc.Bidi} {
+			for _, corrupt := range []bool{false, true} {
+				key := fmt.Sprintf("c07/late-verdict/%s/%s/corrupt=%v", protocol, kind, corrupt)
+				if !run.Want(key) {
+					continue
+				}
+				plain := encMsg("proto", &gen.Msg{Id: 42, Note: "checked at close"})
+				comp := append([]byte{'L', 0, 0, 0, byte(len(plain))}, plain...)
+				if corrupt {
+					comp[4]++ // the declared length no longer matches: this format's checksum
+				}
+				reg := svc.NewRegistry()
+				reg.Default = drainProgram()
+				hs := svc.Handlers(reg, connect.WithCompression("zz-len", zd, zc), connect.WithCompressMinBytes(1<<30), connect.WithReadMaxBytes(1<<20))
+				hdr := http.Header{"Content-Type": {contentType(protocol, "proto", kind)}}
+				encH, _ := encHeaders(protocol, kind)
+				hdr.Set(encH, "zz-len")
+				body := comp
+				enveloped := !(protocol == "connect" && kind == svc.Unary)
+				if enveloped {
+					body = refcodec.AppendFrame(nil, 1, comp)
+				}
+				call := reg.New("lv", drainProgram())
+				hdr.Set(wire.CallHeader, call.ID)
+				rw := wire.NewRecorder()
+				var panicked any
+				ok, dump := watchdog(30*time.Second, func() {
+					defer func() { panicked = recover() }()
+					hs[kind].ServeHTTP(rw, wire.ServerRequest(context.Background(), "POST", kind.Path(), hdr, &wire.ScriptedBody{Data: body}, 2))
+				})
+				run.Count("requests", 1)
+				run.Count("late_verdict.requests", 1)
+				run.Eval(fmt.Sprintf("late-verdict|%s|%s|%v", protocol, kind, corrupt))
+				if !ok {
+					run.Violation(key+"/hang", "ServeHTTP did not return", trunc(dump, 20000))
+					continue
+				}
+				res := rw.Finish()
+				hl := call.Log
+				d := refcodec.DecodeResponse(protocol, enveloped, res.Status, res.Header, res.Body, res.Trailer, svc.RefAlgos())
+				detail := map[string]any{"protocol": protocol, "kind": kind.String(), "corrupt": corrupt, "status": res.Status, "handler_received": gen.DescribeSeq(hl.Received), "late_verdicts": atomic.LoadInt64(&stats.LateVerdicts), "response_error": fmt.Sprint(d.Err)}
+				switch {
+				case panicked != nil:
+					run.Violation(key+"/panic", fmt.Sprintf("ServeHTTP panicked: %v", panicked), detail)
+				case corrupt && len(hl.Received) > 0:
+					run.Violation(key+"/delivered", "user code received a message whose decompressor reported the stream corrupt (from Close)", detail)
+				case corrupt && d.Err == nil:
+					run.Violation(key+"/success", "a request whose decompressor reported the stream corrupt (from Close) was answered with success", detail)
+				case !corrupt && (len(hl.Received) != 1 || hl.Received[0].Id != 42 || d.Err != nil):
+					run.Violation(key+"/intact-rejected", "an intact message of the same algorithm was not delivered", detail)
+				}
+				run.Count("rejections.checked", 1)
 			}
 		}
 	}
